@@ -440,7 +440,9 @@ def vc_default_naming(H):
                    z3.And(ei.t >= 0, ei.t < d.t, z3.BV2Int(ei.t) == j.t))
         ctx.oblige('naming: a digit is emitted  <=>  that bit of the key is set', c2t == bit_set)
         okc = isinstance(ch, SChar)
-        ctx.oblige('naming: the digit is a single hex character', bool(okc))
+        if not okc:
+            raise OutOfSubset('default-basis naming: the digit is not computed as hex(..)[2:] of one generator index (contract does not apply)')
+        ctx.oblige('naming: the digit is a single hex character', True)
         if okc:
             ctx.oblige('naming: the digit of generator i is hex(i + start_index)',
                        z3.Implies(bit_set, z3.ZeroExt(WB - CB, ch.c) == ei.t + start.t))
